@@ -449,6 +449,17 @@ void add_wide(mc::Main& m, std::vector<std::string> tiers)
         std::vector<Char> singles{Char('a'), Char(0x0100), Char(0x20AC), Char(0xFF)};
         sweep<Char>(r, ha, 2, ha, 2, singles);
     });
+    // code units that collide when truncated to 8 (and, for 32-bit units, 16) bits: 'a', 'a'+0x100, 'a'+0x10000
+    // (added after seeded breakage c08_find_first_of_bitmap_low_byte: a 256-entry needle bitmap indexed with
+    // static_cast<unsigned char>(haystack unit); needs a needle unit < 256 and a haystack unit >= 256 with the same
+    // low byte - the earlier alphabets had no such pair)
+    m.job(cat(cname<Char>(), "/truncation-collisions"), tiers, [=](mc::Reporter& r) {
+        std::vector<Char> ha{Char('a'), Char(0x0161), Char('b')};
+        if constexpr (sizeof(Char) >= 4) { ha.push_back(Char(0x10061)); }
+        std::vector<Char> singles{Char('a'), Char(0x0161), Char(0x61 + 0x4e00), Char(0)};
+        if constexpr (sizeof(Char) >= 4) { singles.push_back(Char(0x10061)); }
+        sweep<Char>(r, ha, 2, ha, 2, singles);
+    });
 }
 
 // longer, fixed strings (the statement's "randomised longer strings", replaced by an enumerated family): the haystack is
